@@ -11,6 +11,9 @@ verus! {
 
 //@ include prelude/strmap.rs
 //@ include prelude/scalar_hash.rs
+//@ include prelude/error.rs
+//@ include prelude/goblin_elf.rs
+//@ include units/C11/error_from.rs
 //@ include units/C20/strlit.rs
 //@ include prelude/capstone_x86.rs
 //@ include prelude/capstone_mips_ppc.rs
@@ -31,6 +34,8 @@ use super::*;
 use super::strmap::*;
 use super::strlit::string_of;
 broadcast use crate::strmap::axiom_into_string_str;
+// il::ProgramLocation (lib/il/location.rs) is only a payload of falcon::Error here: opaque stand-in
+#[verifier::external_body] pub struct ProgramLocation { _p: () }
 //@ include units/C20/il_scalar.rs
 proof fn vf_canary_il() ensures false {}
 } // mod il
@@ -68,6 +73,15 @@ broadcast use crate::strmap::axiom_into_string_str;
 //@ include units/C20/arch.rs
 proof fn vf_canary_architecture() ensures false {}
 } // mod architecture
+
+pub mod loader {
+use vstd::prelude::*;
+use crate::*;
+use crate::architecture::*;
+use crate::Error;
+//@ include units/C20/elf_new.rs
+proof fn vf_canary_loader() ensures false {}
+} // mod loader
 
 pub mod translator {
 use vstd::prelude::*;
